@@ -112,6 +112,17 @@ struct Harness {
 
    const Type& pick_type() { return *types[rng.below(types.size())]; }
 
+   // Types are expressions: the canonical "empty" nodes (the product and the sum of nothing), a one-element sum and product, a
+   // built-in and a user-defined type join the pool that array bounds, exception specifications and as-type operands are drawn
+   // from (`throw()` is a function type's exception specification spelled as the empty sum).
+   void types_as_expressions()
+   {
+      const Lexicon& L = lex;
+      Req p0; p0.ctor = PROD; Req s0; s0.ctor = SUM; Req s1; s1.ctor = SUM; s1.seq.push_back(&L.int_type()); Req p1; p1.ctor = PROD; p1.seq.push_back(&L.char_type());
+      for (auto r : { &p0, &s0, &s1, &p1 }) { exprs.push_back(static_cast<const Type*>(execute(*r, 0))); ctx().count("types_offered_as_expression_operands"); }
+      exprs.push_back(&L.int_type()); exprs.push_back(types[types.size() / 2]);
+   }
+
    const Product& some_product()
    {
       if (products.empty() || rng.chance(30)) {
@@ -433,6 +444,7 @@ struct Harness {
 static void random_history(std::uint64_t seed, long long nrequests, int hist_no)
 {
    Harness H(seed);
+   H.types_as_expressions();
    for (long long i = 0; i < nrequests; ++i) {
       if (!H.history.empty() && H.rng.chance(40)) {
          // re-request an earlier key, uniformly chosen, possibly through an equivalent spelling
@@ -458,6 +470,7 @@ static void random_history(std::uint64_t seed, long long nrequests, int hist_no)
 static void structured_history(std::uint64_t seed, long long nkeys, const char* order)
 {
    Harness H(seed);
+   H.types_as_expressions();
    std::vector<Req> reqs;
    for (long long i = 0; i < nkeys; ++i) { Req r = H.fresh(); if (r.ctor == PROD || r.ctor == SUM || r.ctor == FN || r.ctor == TOR || r.ctor == FORALL) { r = Req{}; r.ctor = PTR; r.t1 = &H.pick_type(); } H.execute(r, 0); reqs.push_back(r); }
    // now build a fresh layer of keys over the pool, in controlled operand-address order
@@ -494,7 +507,7 @@ static void body(Ctx& C)
    C.assume("node identity (address) is the observable; keys use addresses for equality only");
    C.assume("get_product/get_sum(const Sequence&) are given sequences owned by the Lexicon, or - only for a product/sum that already exists - one client-owned sequence object refilled for every such request");
    for (int c = 0; c < NCTOR; ++c) { C.need(std::string("distinct_keys:") + ctor_name[c]); C.need(std::string("re_requests:") + ctor_name[c]); }
-   C.need("seq_entry_point_sequence"); C.need("seq_entry_point_client_scratch_sequence"); C.need("seq_entry_point_warehouse"); C.need("table_validations"); C.need("successive_lexicons_in_one_slot"); C.need("as_type_over_an_as_type_with_transfer"); C.need("mirror_requests");
+   C.need("seq_entry_point_sequence"); C.need("seq_entry_point_client_scratch_sequence"); C.need("types_offered_as_expression_operands"); C.need("seq_entry_point_warehouse"); C.need("table_validations"); C.need("successive_lexicons_in_one_slot"); C.need("as_type_over_an_as_type_with_transfer"); C.need("mirror_requests");
    for (int i = 0; i < 4; ++i) C.need(std::string("fn_overload_") + std::to_string(i));
 
    const int histories = C.thorough ? 12 : 3;
